@@ -199,6 +199,19 @@ impl Oplog {
                     outcome.oplog.entries_byte_length =
                         entry_ends.last().copied().unwrap_or(0) as u64;
                     outcome.entries = Some(entries.into_boxed_slice());
+                    // Whatever follows the accepted entries (entries of an earlier header
+                    // generation that a crashed flush did not get to truncate, an unfinished
+                    // batch, a torn tail) is ignored now, but the generation of an entry is a
+                    // single bit: two header writes later the same bytes would count as current
+                    // again. Cut them off, as Javascript does when it opens a log.
+                    if outcome.infos_to_flush.is_empty()
+                        && entries_buff_length as u64 > outcome.oplog.entries_byte_length
+                    {
+                        outcome.infos_to_flush = Box::new([StoreInfo::new_truncate(
+                            Store::Oplog,
+                            OplogSlot::Entries as u64 + outcome.oplog.entries_byte_length,
+                        )]);
+                    }
                 }
                 Ok(Either::Right(outcome))
             }
